@@ -120,7 +120,8 @@ def mutate(x, how, r, shared_hint=None):
         if how == "add_value":
             r.shuffle(recs)
             return any(add_value(rec) for rec in recs[:1]) or any(add_value(rec) for rec in recs[1:4])
-        r.choice(recs).add_attributes([(NSX["attr"], "mutated")])
+        for rec in recs[:16]:
+            rec.add_attributes([(NSX["attr"], "mutated")])
         return True
     if how == "add_record":
         r.choice(containers).entity(NSX["newrec"], {NSX["k"]: 1})
@@ -148,7 +149,7 @@ def judge(ctx, idx, case):
     judged = 0
     for dname in case["derive"]:
         # fresh source for every derivation: mutations must not accumulate across judgements
-        src = interp.run(case["ops"]).doc
+        src = common.build(case["ops"]).doc
         other = interp.run(case["other"]).doc
         try:
             if dname == "copy":
